@@ -3,7 +3,7 @@
    kind "rt":  every byte string of length <= 2 (complete) and length 3 over Rep3:  Canonical(Encode(s)), Value(Encode(s)) = s,
                length formulas, the output promise, and the I-layer automaton agrees.
    kind "dec": every string over DecAlpha up to DecLen: the automaton (I) accepts only what the strict reading (P) does not call
-               malformed - except the triple-padding quirk, which is the one place where today's code is laxer - and computes
+               malformed - except, for the linked library ("used") only, the triple-padding quirk - and computes
                the P value; canonical texts are accepted. *)
 EXTENDS Base64, TLC
 Rep3 == {0, 1, 3, 4, 15, 16, 63, 64, 127, 128, 191, 192, 251, 252, 254, 255}
@@ -22,16 +22,17 @@ RoundTrip == kind = "rt" => LET e == Encode(s) IN
                /\ Canonical(e) /\ ~Malformed(e)
                /\ Value(e) = s
                /\ Len(s) <= DecodeLength(Len(e))
-               /\ Nettle(e).ok /\ Nettle(e).out = s
+               /\ \A impl \in {"own", "used"} : Automaton(impl, e).ok /\ Automaton(impl, e).out = s
 TriplePad(e) == Pads(Strip(e)) = 3
-Decoders == kind = "dec" => LET r == Nettle(s) IN
+Decoders == kind = "dec" => \A impl \in {"own", "used"} : LET r == Automaton(impl, s) IN
                /\ Len(r.out) <= DecodeLength(Len(s))
                /\ (Canonical(s) => r.ok /\ r.out = Value(s))
-               /\ (r.ok => (~Malformed(s) \/ TriplePad(s)))
+               /\ (r.ok => (~Malformed(s) \/ (impl = "used" /\ TriplePad(s))))      \* "own" accepts nothing malformed
                /\ (r.ok /\ ~Malformed(s) => r.out = Value(Strip(s)))
 ASSUME Encode(<<77, 97, 110>>) = <<84, 87, 70, 117>>                       \* "Man" -> "TWFu"  (RFC 4648)
 ASSUME Encode(<<102, 111, 111, 98>>) = <<90, 109, 57, 118, 89, 103, 61, 61>>   \* "foob" -> "Zm9vYg=="
 ASSUME Encode(<<>>) = <<>> /\ Canonical(<<>>)
+ASSUME Nettle(<<65, 61, 61, 61>>).ok /\ ~Own(<<65, 61, 61, 61>>).ok /\ Own(<<81, 81, 61, 61>>).ok      \* "A===", "QQ=="
 ASSUME Malformed(<<65, 61, 61, 61>>) /\ Malformed(<<81, 81>>) /\ Malformed(<<81, 81, 61>>) /\ Malformed(<<81, 81, 61, 61, 81, 81, 61, 61>>)
 ASSUME ~Canonical(<<81, 82, 61, 61>>) /\ ~Malformed(<<81, 82, 61, 61>>)      \* "QR==": non-zero padding bits
 ASSUME SplitBasic(<<97, 58, 98, 58, 99>>) = [user |-> <<97>>, haspw |-> TRUE, pw |-> <<98, 58, 99>>]
